@@ -6,7 +6,7 @@
    expressed through [group_of]: 0 alive local-rack replicas, 1 alive local-DC replicas, 2 alive
    (remote) replicas, 3 alive local-rack nodes, 4 alive local nodes, 5 alive remote nodes,
    6 enabled-but-down local nodes, 7 enabled-but-down remote nodes, 8 not allowed in the plan. *)
-From SV Require Import Base.Prelude Model.Ring Model.Replicas Model.Plan Proofs.Ring_proofs Proofs.Replicas_proofs Proofs.Plan_proofs.
+From SV Require Import Base.Prelude Model.Ring Model.Replicas Model.Plan Proofs.Ring_proofs Proofs.Replicas_proofs Proofs.Plan_proofs Proofs.C05_round4.
 From Coq Require Import Permutation.
 Open Scope Z_scope.
 
@@ -400,6 +400,120 @@ Example C05_ex_model :
   pick_matches ex_dcf ex_rackf ex_g ex_ks ex_enabled ex_connected ex_pol (ex_rq true) (Some 7%N) = false.
 Proof. repeat split; vm_compute; reflexivity. Qed.
 
+(* ==== deepening round 4: the extracted acceptor pieces, exactly =============================
+   min_group (the driver's diagnostic), the boundary "group 8 = may not be named", pick_matches
+   on Some and on None as equivalences, a frame statement for group_of and what it gives for the
+   kind-L acceptor, and the two-read model at one snapshot *)
+Theorem C05_min_group_spec : forall dcf rackf (g : ring N) keyspaces enabled connected pol rq,
+  (forall m, In m (all_nodes g) ->
+     (min_group dcf rackf g keyspaces enabled connected pol rq <=
+      group_of dcf rackf g keyspaces enabled connected pol rq m)%nat) /\
+  (min_group dcf rackf g keyspaces enabled connected pol rq <= 8)%nat /\
+  (min_group dcf rackf g keyspaces enabled connected pol rq = 8%nat \/
+   exists n, In n (all_nodes g) /\
+     group_of dcf rackf g keyspaces enabled connected pol rq n =
+     min_group dcf rackf g keyspaces enabled connected pol rq).
+Proof. exact min_group_spec. Qed.
+
+Theorem C05_group_lt8_iff : forall dcf rackf (g : ring N) keyspaces enabled connected pol rq,
+  sorted_weak g -> forall n,
+  (group_of dcf rackf g keyspaces enabled connected pol rq n < 8)%nat <->
+  enabled n = true /\ permitted dcf g pol rq n = true.
+Proof. exact group_lt8_iff. Qed.
+
+(* C05_pick_sound with its converse: the acceptor refuses no pick that has the property *)
+Theorem C05_pick_iff : forall dcf rackf (g : ring N) keyspaces enabled connected pol rq,
+  sorted_weak g -> forall n,
+  pick_matches dcf rackf g keyspaces enabled connected pol rq (Some n) = true <->
+  (group_of dcf rackf g keyspaces enabled connected pol rq n < 8)%nat /\
+  (forall m, In m (all_nodes g) ->
+     (group_of dcf rackf g keyspaces enabled connected pol rq n <=
+      group_of dcf rackf g keyspaces enabled connected pol rq m)%nat) /\
+  (rq_lwt rq = true -> (group_of dcf rackf g keyspaces enabled connected pol rq n < 3)%nat ->
+   exists r, lwt_sequence dcf rackf g keyspaces enabled connected pol rq = n :: r).
+Proof. exact pick_matches_some_iff. Qed.
+
+(* pick() = None is accepted exactly when no token-owning node may be named, or (LWT, remote
+   replicas allowed) the ring's primary replica is down and no node is in a local replica group *)
+Theorem C05_pick_none_iff : forall dcf rackf (g : ring N) keyspaces enabled connected pol rq,
+  pick_matches dcf rackf g keyspaces enabled connected pol rq None = true <->
+  (forall m, In m (all_nodes g) -> group_of dcf rackf g keyspaces enabled connected pol rq m = 8%nat) \/
+  (rq_lwt rq = true /\ remote_allowed pol rq = true /\
+   exists t s primary r, token_strategy keyspaces pol rq = Some (t, s) /\
+     reps_ordered dcf rackf g keyspaces t s CAny = primary :: r /\
+     alive enabled connected primary = false /\
+     forall m, In m (all_nodes g) -> (2 <= group_of dcf rackf g keyspaces enabled connected pol rq m)%nat).
+Proof. exact pick_matches_none_iff. Qed.
+
+(* frame: a node's group depends on that node's liveness only ... *)
+Theorem C05_group_frame : forall dcf rackf (g : ring N) keyspaces en1 co1 en2 co2 pol rq n,
+  en1 n = en2 n -> co1 n = co2 n ->
+  group_of dcf rackf g keyspaces en1 co1 pol rq n = group_of dcf rackf g keyspaces en2 co2 pol rq n.
+Proof. exact group_of_frame. Qed.
+
+(* ... so a two-read plan accepted by the kind-L acceptor never names the picked node again when
+   that node's own liveness is unchanged, whatever happened to the others: the rest is an accepted
+   later plan with the head taken out *)
+Theorem C05_two_reads_unchanged_head : forall dcf rackf (g : ring N) keyspaces en1 co1 en2 co2 pol rq h rest,
+  en1 h = en2 h -> co1 h = co2 h ->
+  two_reads_matches dcf rackf g keyspaces en1 co1 en2 co2 pol rq (h :: rest) = true ->
+  ~ In h rest /\
+  exists a b, rest = a ++ b /\ plan_matches dcf rackf g keyspaces en2 co2 pol rq (a ++ h :: b) = true.
+Proof. exact two_reads_unchanged_head. Qed.
+
+(* the two-read model read twice under the same liveness is the one-snapshot Plan *)
+Theorem C05_two_reads_same_snapshot : forall dcf rackf (g : ring N) keyspaces en co shf pol rq cho shuf,
+  plan_two_reads dcf rackf g keyspaces en co en co shf pol rq cho shuf =
+  match pick dcf rackf g keyspaces en co shf pol rq cho with
+  | Some _ => Some (plan dcf rackf g keyspaces en co shf pol rq cho shuf)
+  | None => None
+  end.
+Proof. exact two_reads_same_snapshot. Qed.
+
+(* non-vacuity of the hypotheses of C05_two_reads_* / C05_reads_safe on the witness ring and of
+   the oracle hypotheses (index 0, identity shuffle) *)
+Example C05_ex_tw_hyps :
+  sorted_weak tw_g /\ (forall k s, ks_lookup tw_ks k = Some s -> nts_keys_ok s) /\
+  (forall (site : nat) (l : list N), Permutation ((fun _ l => l) site l) l) /\
+  (forall site len : nat, (0 < len)%nat -> ((fun _ _ => 0%nat) site len < len)%nat) /\
+  plan_two_reads (fun _ => None) (fun _ => None) tw_g tw_ks tw_up tw_up tw_up tw_up (fun _ => 0%N) tw_pol tw_rq
+    (fun _ _ => 0%nat) (fun _ l => l) = Some [(1, Some 0); (2, None)]%N.
+Proof.
+  split; [|split; [|split; [|split]]].
+  - change tw_g with (sort_ring tw_g). apply sort_ring_sorted.
+  - intros k s. cbn. destruct (N.eqb 0 k); [|discriminate]. intros [= <-]. exact I.
+  - intros _ l. apply Permutation_refl.
+  - intros _ len H. exact H.
+  - vm_compute. reflexivity.
+Qed.
+
+(* the hypotheses of C05_lwt_ring_order (no location preference, token-aware) on the 7-node ring:
+   the LWT sequence is the live replicas in ring order from token 160 (F = 6 disabled, C = 3 down) *)
+Definition ex_pol_any := {| pol_pref := None; pol_token_aware := true; pol_failover := false |}.
+Example C05_ex_lwt_ring_order :
+  eff_pref ex_pol_any (ex_rq true) = PAny /\
+  token_strategy ex_ks ex_pol_any (ex_rq true) = Some (160, NTS [(1%N, 3%nat); (2%N, 3%nat)]) /\
+  reps_ordered ex_dcf ex_rackf ex_g ex_ks 160 (NTS [(1%N, 3%nat); (2%N, 3%nat)]) CAny = [6; 1; 3; 4; 7; 5]%N /\
+  lwt_sequence ex_dcf ex_rackf ex_g ex_ks ex_enabled ex_connected ex_pol_any (ex_rq true) = [1; 4; 7; 5]%N.
+Proof. repeat split; vm_compute; reflexivity. Qed.
+
+(* both disjuncts of C05_pick_none_iff, and min_group: LWT whose primary replica (F = 6) is not
+   alive while the best group is 2 -> None accepted; the same request non-LWT -> None refused;
+   every node disabled -> min_group = 8 and None accepted; C05_ex_accept's cluster: min_group 0 *)
+Example C05_ex_pick_none :
+  pick_matches ex_dcf ex_rackf ex_g ex_ks ex_enabled ex_connected ex_pol_any (ex_rq true) None = true /\
+  min_group ex_dcf ex_rackf ex_g ex_ks ex_enabled ex_connected ex_pol_any (ex_rq true) = 2%nat /\
+  map (group_of ex_dcf ex_rackf ex_g ex_ks ex_enabled ex_connected ex_pol_any (ex_rq true)) [1; 2; 3; 4; 5; 6; 7]%N
+    = [2; 4; 6; 2; 2; 8; 2]%nat /\
+  pick_matches ex_dcf ex_rackf ex_g ex_ks ex_enabled ex_connected ex_pol_any (ex_rq false) None = false /\
+  pick_matches ex_dcf ex_rackf ex_g ex_ks (fun _ => false) ex_connected ex_pol (ex_rq false) None = true /\
+  min_group ex_dcf ex_rackf ex_g ex_ks (fun _ => false) ex_connected ex_pol (ex_rq false) = 8%nat /\
+  min_group ex_dcf ex_rackf ex_g ex_ks ex_enabled ex_connected ex_pol (ex_rq false) = 0%nat /\
+  (* the unchanged-head statement: node 1's liveness is the same at both reads, node 2 goes down *)
+  two_reads_matches (fun _ => None) (fun _ => None) tw_g tw_ks tw_up tw_up tw_up (fun n => negb (N.eqb n 2)) tw_pol tw_rq [1; 2]%N = true.
+Proof. repeat split; vm_compute; reflexivity. Qed.
+
+
 Print Assumptions C05_accept_sound.
 Print Assumptions C05_pick_sound.
 Print Assumptions C05_accept_ring.
@@ -423,3 +537,10 @@ Print Assumptions C05_two_reads_accept_safe.
 Print Assumptions C05_two_reads_model_safe.
 Print Assumptions C05_reads_safe.
 Print Assumptions C05_two_reads_as_reads.
+Print Assumptions C05_min_group_spec.
+Print Assumptions C05_group_lt8_iff.
+Print Assumptions C05_pick_iff.
+Print Assumptions C05_pick_none_iff.
+Print Assumptions C05_group_frame.
+Print Assumptions C05_two_reads_unchanged_head.
+Print Assumptions C05_two_reads_same_snapshot.
